@@ -30,6 +30,14 @@ type C10Case struct {
 	N   int      `json:"n"`           // sectors in the contract before the call
 	P   []int    `json:"p,omitempty"` // call parameters, meaning per RPC (see c10Run*)
 	Mut rhpc.Mut `json:"mut"`
+	// Keys draws the session key, the price table's signer and the contract's
+	// host key independently (the contract's host key is always A):
+	//   ""                      all A
+	//   "session=B,prices=B"    a session with host B, B's prices, contract with A
+	//   "session=B,prices=A"    a session with B that presents A's price table
+	//   "session=A,prices=B"    the right host with a price table signed by B
+	// The host signs revisions with its session key and is honest otherwise.
+	Keys string `json:"keys,omitempty"`
 	// Args, when set, calls the function with arguments outside the honest
 	// range against a host that plays along (see c10Args); Mut is then unused.
 	Args string `json:"args,omitempty"`
@@ -39,6 +47,11 @@ type C10Case struct {
 // "impossible" ones have no correct answer (the call must return an error);
 // the two degenerate ones (nothing to free / nothing to append) have one and
 // are judged by the ordinary oracle.
+var c10Keys = []string{"session=B,prices=B", "session=B,prices=A", "session=A,prices=B"}
+
+// c10KeyRPCs are the client functions that take (or create) a contract.
+var c10KeyRPCs = map[string]bool{"roots": true, "append": true, "free": true, "fund": true, "replenish": true, "replpools": true, "form": true, "renew": true, "refresh-full": true, "refresh-partial": true}
+
 var c10Args = map[string][]string{
 	"roots":  {"empty-contract", "beyond-end", "offset-beyond-end", "zero-length", "zero-length-empty-contract", "huge-length"},
 	"read":   {"beyond-sector", "offset-beyond-sector", "zero-length", "unaligned-end", "overflowing-range"},
@@ -72,6 +85,10 @@ func genC10(t *rapid.T) C10Case {
 	np := 6
 	for i := 0; i < np; i++ {
 		c.P = append(c.P, rapid.IntRange(0, 70000).Draw(t, "p"))
+	}
+	if c10KeyRPCs[c.RPC] && rapid.IntRange(0, 7).Draw(t, "keyConfusion") == 0 {
+		c.Keys = rapid.SampledFrom(c10Keys).Draw(t, "keys")
+		return c
 	}
 	if l := c10Args[c.RPC]; len(l) > 0 && rapid.IntRange(0, 5).Draw(t, "oddArgs") == 0 {
 		c.Args = rapid.SampledFrom(l).Draw(t, "args")
@@ -113,7 +130,9 @@ func baseState() consensus.State {
 var (
 	c10HostKey   = rhpc.Key("c10-host")
 	c10RenterKey = rhpc.Key("c10-renter")
-	basePrices   = rhpc.DefaultSettings(types.Address{}).Prices
+	// c10OtherHostKey is host B of the key-confusion cases
+	c10OtherHostKey = rhpc.Key("c10-host-B")
+	basePrices      = rhpc.DefaultSettings(types.Address{}).Prices
 )
 
 type c10Env struct {
@@ -181,6 +200,21 @@ func newC10Env(c C10Case, cs consensus.State) *c10Env {
 	e.host.Contracts[e.id] = &rhpc.BContract{Rev: e.rev, Roots: append([]types.Hash256(nil), e.roots...)}
 	e.token = proto4.NewAccountToken(c10RenterKey, c10HostKey.PublicKey())
 	e.contract = rhp4.ContractRevision{ID: e.id, Revision: e.rev}
+	if c.Keys != "" {
+		session, pricer := c10HostKey, c10HostKey
+		if strings.Contains(c.Keys, "session=B") {
+			session = c10OtherHostKey
+		}
+		if strings.Contains(c.Keys, "prices=B") {
+			pricer = c10OtherHostKey
+		}
+		e.prices = rhpc.SignPrices(pricer, basePrices, cs.Index.Height)
+		e.host.Prices = e.prices
+		e.host.Key = pricer                         // requests are validated against the price signer
+		e.host.SignKey = session                    // revisions are signed with the session identity
+		e.host.ContractKey = c10HostKey.PublicKey() // the contract names host A
+		e.host.T.SetPeerKey(session.PublicKey())
+	}
 	return e
 }
 
@@ -238,6 +272,9 @@ func runC10With(c C10Case, cs *kit.CaseStats, raw func(idx int, wire []byte) []b
 	if !ok {
 		return fmt.Errorf("HARNESS: unknown rpc %q", c.RPC)
 	}
+	if c.Keys != "" {
+		c.Mut, c.Args = rhpc.Mut{}, ""
+	}
 	if c.Mut.Kind != "" {
 		c.Mut.Msg = mod(c.Mut.Msg, len(kinds))
 	}
@@ -285,6 +322,25 @@ func runC10With(c C10Case, cs *kit.CaseStats, raw func(idx int, wire []byte) []b
 		return nil
 	}
 	diag := fmt.Sprintf(" [elapsed %v, watchdog %v]", time.Since(started).Round(time.Millisecond), ctx.Err())
+	if c.Keys != "" {
+		// key confusion: the host is honest apart from who it is; the ordinary
+		// oracle applies (a returned revision must verify under the CONTRACT's
+		// host key), success is not required
+		cs.Class("rpc=" + c.RPC)
+		cs.Class(c.RPC + "/keys=" + c.Keys)
+		cs.NonTrivial()
+		if ctx.Err() != nil && out.err != nil && out.violation == nil {
+			cs.Inconclusive("client call hit the harness watchdog")
+			return nil
+		}
+		if out.err == nil {
+			cs.Class("accepted:" + c.RPC + "/keys=" + c.Keys)
+		}
+		if out.violation != nil {
+			return fmt.Errorf("%s with key confusion (%s; contract host key A, host signs with its session key): %w", c.RPC, c.Keys, out.violation)
+		}
+		return nil
+	}
 	label := "honest"
 	if c.Mut.Kind != "" {
 		label = fmt.Sprintf("msg%d/%s", c.Mut.Msg, c.Mut.Kind)
@@ -883,6 +939,19 @@ func TestC10Enum(t *testing.T) {
 						report(c, cs, c10Prop.SafeRun(c, cs))
 					}
 				}
+			}
+		}
+	}
+	// key confusion: session key / price signer / contract host key
+	for _, rpc := range rhpc.RPCs {
+		if !c10KeyRPCs[rpc] || !mine() {
+			continue
+		}
+		for _, k := range c10Keys {
+			for _, ps := range presets {
+				c := C10Case{RPC: rpc, N: ps.n, P: ps.p, Keys: k}
+				cs := &kit.CaseStats{}
+				report(c, cs, c10Prop.SafeRun(c, cs))
 			}
 		}
 	}
